@@ -21,7 +21,7 @@ CONFIG = {'assumptions': [
     "augmentation 'S' is observed as the presence of a True-valued flag key in augmentation_dict; the personality "
     'routine as (encoding byte, encoded value)',
     'register rules of a row are compared as a finite map (sorted by register number)']}
-LEVEL = {'text': 'Machine-checked (Props/C06.v, 26 theorems, closed under the global context): (1) entries round trip: every '
+LEVEL = {'text': 'Machine-checked (Props/C06.v, 27 theorems, closed under the global context): (1) entries round trip: every '
                  'well-formed .debug_frame/.eh_frame section built by the Coq encoders (all producer choices as arguments: '
                  'CIE v1/3/4, DWARF32/64, address size 4/8, byte order, augmentations "" and z+RLPS in any order, nine '
                  'pointer formats x absolute/pcrel, section address, LEB128 paddings, FDE before or after its CIE, zero '
@@ -34,7 +34,8 @@ LEVEL = {'text': 'Machine-checked (Props/C06.v, 26 theorems, closed under the gl
                  'final row carries a rule - the complement is a known finding with refutation theorems, and its exact '
                  'extent is proved for ALL inputs (C06_table_exact_cie/_fde: the model table is the 6.4 table minus at '
                  'most the rule-less final row); lifted to the entries of a section (C06_section_tables); (4) the '
-                 'DW_CFA_* constants, _OPCODE_NAME_MAP, masks, _eh_encoding_to_field and the construct trees of '
+                 'DW_CFA_* constants (every name carries its standard/registry value, the core table is complete), '
+                 '_OPCODE_NAME_MAP, masks, _eh_encoding_to_field and the construct trees of '
                  'Dwarf_CIE_header/EH_CIE_header/Dwarf_FDE_header regenerated from the live modules equal the standard '
                  'tables/field lists, and the hand model of the header structs equals the interpretation of the '
                  'generated layouts on all byte strings. The rest of the hand model (entry scan, augmentation, pointer '
@@ -43,7 +44,10 @@ LEVEL = {'text': 'Machine-checked (Props/C06.v, 26 theorems, closed under the gl
                  'points themselves are modelled (Model/C06Dwarfinfo.v): on one DWARFInfo holding both sections, under any '
                  'descriptive names/global offsets of the descriptors and in any history of calls, CFI_entries returns the '
                  '.debug_frame entries and EH_CFI_entries the .eh_frame entries (C06_dwarfinfo_entries/_calls); the '
-                 'correspondence asks both entry points in both orders on such objects with real/None/equal/swapped names.',
+                 'correspondence asks both entry points in both orders on such objects with real/None/equal/swapped names. '
+                 'Correspondence only (no theorem): the optional vendor opcodes 0x1d/0x2c/0x2f (specified from the '
+                 'registries, refused by today\'s code, in the domain as soon as the live module names them), the stream '
+                 'kind handed to the library and the drop+gc history between cases.',
          'design_ref': '4.6', 'technique': 'Coq proof (induction, simulation relation, cursor lemmas, cache invariant) + extracted-model correspondence',
          'note': 'Trusted: Coq kernel, ExtrOcamlBasic extraction, harness adapters, the specs written from DWARF 5 '
                  '6.4/7.24 and the LSB .eh_frame description. No axioms. Out of the theorems: pc-relative values are '
@@ -59,7 +63,9 @@ RULE = ('cases: (a) sections of 1..8 entries over {.debug_frame v1/3/4, DWARF32/
         'different contents, descriptor names real/None/empty/equal/swapped, histories of 2-3 calls of CFI_entries and '
         'EH_CFI_entries in both orders; (f) instruction lists / tables with the optional vendor opcodes 0x1d 0x2c 0x2f, in '
         'domain iff the live _OPCODE_NAME_MAP names them; every stream handed to the library is of a kind drawn from '
-        'tools/lib/streams.py (bytesio, file, file_warm, file_end, file_small, mmap, gzip, decoy_fd). distinct = hash(kind, abstract); non-trivial = a section with >= 2 entries '
+        'tools/lib/streams.py (bytesio, file, file_warm, file_end, file_small, mmap, gzip, decoy_fd); all section cases run '
+        'in one process as a history: the previous case\'s objects are dropped and gc.collect()ed before the next one '
+        '(other address size / byte order / format). distinct = hash(kind, abstract); non-trivial = a section with >= 2 entries '
         'or an instruction list with >= 2 instructions')
 
 FORMATS = [0, 1, 2, 3, 4, 9, 10, 11, 12]
@@ -828,7 +834,13 @@ def _evaluate(ctx, cases, S):
                          for i in dmg_idx])
     dmg_ans = dict(zip(dmg_idx, dmg_ans))
 
+    import gc
     for i, ((kind, a), ans) in enumerate(zip(cases, answers)):
+        if kind in ('section', 'dwarfinfo', 'damaged'):
+            # history: every object of the previous cases (DWARFInfo, CallFrameInfo, entries, structs) has been
+            # dropped; run the cyclic collector so that their memory (and id()s) can be reused by this case, which
+            # has in general another address size / byte order / format.  The answer must not depend on it.
+            gc.collect(1)       # young generations: where the previous case's objects are (a full collection per case costs 0.2 s)
         if kind == 'section':
             data, wf, m_entries, s_entries, m_tables, s_tables, domains = ans
             (eh, le, asize, addr, entries), skind = _sec5(a)
